@@ -12,6 +12,7 @@ import (
 	"os"
 	"path/filepath"
 	"strings"
+	"sync/atomic"
 	"time"
 
 	"verif/internal/dbgen"
@@ -120,7 +121,7 @@ func poolHistories(r *ev.Run, prop string) {
 	ev.Parallel(len(firsts), func(fi int) {
 		var rec func(seq []int)
 		rec = func(seq []int) {
-			if !valid(seq) {
+			if !valid(seq) || poolHung.Load() {
 				return
 			}
 			poolRun(r, prop, path, seq, want)
@@ -133,6 +134,10 @@ func poolHistories(r *ev.Run, prop string) {
 		rec(firsts[fi])
 	})
 }
+
+// poolHung is set by the first sequence that does not return: the pool family stops there (every
+// further sequence would wait for its own time limit)
+var poolHung atomic.Bool
 
 func poolNames(seq []int) []string {
 	out := make([]string, len(seq))
@@ -265,6 +270,10 @@ func poolRun(r *ev.Run, prop, path string, seq []int, want map[string][][]interf
 		}
 	})
 	if !ok {
+		if poolHung.Swap(true) {
+			return // reported by another worker already
+		}
+		r.NotExhaustive("pool histories stopped at the first sequence that did not return")
 		r.Violation(prop+":pool-history:hang", fmt.Sprintf("%v does not finish within 2 minutes", names), art)
 		return
 	}
